@@ -59,8 +59,13 @@ MANIFEST = {
                 "assign, prepend(data,size), resize, both appends, removeFront, removeBack, reserve, clear, swap, free, statement by statement over the "
                 "checked-memory machine CMem.lean (pointer = (block, offset)) - and tr_resize, tr_removeFront, tr_removeBack, tr_clear, tr_free, tr_attach, "
                 "tr_reserve, tr_prepend, tr_assign, tr_assignBuf, tr_swap, tr_appendBuf, tr_append prove: generated method = hand-written model method "
-                "(capacity wish 0) on every state that satisfies the representation invariant with a live block, for arguments outside the object - same "
-                "faults, pointers, _capacity, bytes, ledger.  A change of one of these bodies changes the generated definition and the proof fails.  "
+                "(at the capacity wish = the _capacity the translated source ends with; with today's source that is the model's wish-0 behaviour) on every "
+                "state that satisfies the representation invariant with a live block, for arguments outside the object - same "
+                "faults, pointers, _capacity, bytes, ledger.  A change of one of these bodies changes the generated definition and the proof fails; the proof "
+                "scripts decide the source's conditions by omega from semantic case hypotheses, split on conditions those do not determine and unfold whatever "
+                "helper the translator generated (simp set tr_gen), so behaviour-preserving rewrites (early returns, re-spelled or re-ordered comparisons, named "
+                "temporaries: harmless C08-h1/h2) keep the proofs; a rewrite whose symbolic execution is too large (C08-h3: append -> grow -> reserve -> resize) is "
+                "reported as a broken tie without failing input.  "
                 "The model is tied to the current Buffer.hpp on every run: identical op lines are executed by a harness built from the "
                 "current sources (fresh memory poisoned, attached ranges and data arguments handed out as exactly sized heap blocks so that "
                 "ASan sees any access outside them, attached blocks compared with their source after every op) and by the compiled model; "
@@ -71,7 +76,7 @@ MANIFEST = {
         "note": "Trusted: Lean kernel + propext/Classical.choice/Quot.sound; tools/gen_buffer.py and the semantics of its target machine CMem.lean "
                 "(assumption: comparing pointers into different blocks yields the order of the blocks - distinct blocks do not touch); the hand translation of "
                 "Buffer.hpp into Model.lean is proved equal to the translated current source for resize, removeFront/Back, clear, free, attach, reserve, "
-                "prepend(data,size), assign, operator=, swap and both appends with arguments outside the object (tr_* theorems, capacity wish 0), and is still "
+                "prepend(data,size), assign, operator=, swap and both appends with arguments outside the object (tr_* theorems), and is still "
                 "hand-translated and only tied by the correspondence run for: the alias variants (assignSelf/prependSelf/appendSelf, ...Sub, Raw.lean's ...Ptr - the "
                 "generated bodies cover them, the equalities are not proved), prepend(const Buffer&) (forwarder, not translated), constructors/destructor "
                 "(translated, equality not stated), operator==/!=, size/capacity/isEmpty.  Modelled rather than verified: memory is one checked block per Buffer object held by "
